@@ -1180,8 +1180,13 @@ run_task(_task_t t)
 		return -1;
 	}
 
-	if (!(t->nsim < (unsigned int)t->t->max_simul)) {
+	/* ARGS is static, so make sure the no-run flag of a previous spawn
+	 * doesn't leak into this one, 077 is the unset (infinite) limit */
+	if (t->t->max_simul < 077U &&
+	    !(t->nsim < (unsigned int)t->t->max_simul)) {
 		args[2U] = "-nd";
+	} else {
+		args[2U] = NULL;
 	}
 
 	/* prep the IPC with echsx */
@@ -2239,7 +2244,8 @@ task_cb(EV_P_ ev_periodic *w, int UNUSED(revents))
 	/* the task context holds the number of currently running children
 	 * as well as the maximum number of simultaneous children
 	 * if the maximum is running, defer the execution of this task */
-	if (t->nsim < (unsigned int)t->t->max_simul - 1U) {
+	if (t->t->max_simul >= 077U ||
+	    t->nsim < (unsigned int)t->t->max_simul) {
 		pid_t p;
 
 		/* indicate that we might want to reuse the loop */
@@ -2266,9 +2272,9 @@ task_cb(EV_P_ ev_periodic *w, int UNUSED(revents))
 	}
 
 	/* prepare for rescheduling */
-	if (UNLIKELY(w->reschedule_cb == NULL)) {
-		/* the child watcher will reap this task */
-		;
+	if (UNLIKELY(w->reschedule_cb == NULL && !t->nsim)) {
+		/* there is no child watcher that could reap this task */
+		unsched(EV_A_ w, 0);
 	}
 	return;
 }
